@@ -2,6 +2,22 @@
 //! text around a list of attributes for each trait.
 use crate::ir::*;
 
+/// Options of one element written as `#[darling(..)]` attributes. Elements with two or more
+/// options get them stacked over two attributes for every other declaration (decided by a
+/// hash of the option text), so that both spellings occur throughout the corpora.
+fn darling_attrs(opts: &[String], sep: &str) -> String {
+    if opts.is_empty() {
+        return String::new();
+    }
+    let h: usize = opts.iter().flat_map(|o| o.bytes()).fold(7usize, |a, b| a.wrapping_mul(31).wrapping_add(b as usize));
+    if opts.len() >= 2 && h % 2 == 0 {
+        let cut = 1 + h / 2 % (opts.len() - 1);
+        format!("#[darling({})]{sep}#[darling({})]{sep}", opts[..cut].join(", "), opts[cut..].join(", "))
+    } else {
+        format!("#[darling({})]{sep}", opts.join(", "))
+    }
+}
+
 pub fn ty_name(prog: &Program, ty: &Ty) -> String {
     let _ = prog;
     match ty {
@@ -91,7 +107,7 @@ fn field_attr(prog: &Program, n: usize, i: usize, f: &Field) -> String {
     if opts.is_empty() {
         String::new()
     } else {
-        format!("#[darling({})] ", opts.join(", "))
+        darling_attrs(&opts, " ")
     }
 }
 
@@ -159,7 +175,7 @@ pub fn print_struct(prog: &Program, n: usize, out: &mut String) {
     }
     out.push_str(&format!("#[derive(Debug, darling::{})]\n", s.tr8.name()));
     if !copts.is_empty() {
-        out.push_str(&format!("#[darling({})]\n", copts.join(", ")));
+        out.push_str(&darling_attrs(&copts, "\n"));
     }
     out.push_str(&format!("pub struct R{n} {{\n"));
     for m in &s.magic {
@@ -263,7 +279,7 @@ pub fn print_enum(prog: &Program, n: usize, out: &mut String) {
     }
     out.push_str("#[derive(Debug, darling::FromMeta)]\n");
     if !copts.is_empty() {
-        out.push_str(&format!("#[darling({})]\n", copts.join(", ")));
+        out.push_str(&darling_attrs(&copts, "\n"));
     }
     out.push_str(&format!("pub enum R{n} {{\n"));
     for (vi, v) in e.variants.iter().enumerate() {
@@ -279,7 +295,7 @@ pub fn print_enum(prog: &Program, n: usize, out: &mut String) {
             Some(true) => vopts.push("word".into()),
             Some(false) => vopts.push("word = false".into()),
         }
-        let attr = if vopts.is_empty() { String::new() } else { format!("#[darling({})] ", vopts.join(", ")) };
+        let attr = darling_attrs(&vopts, " ");
         match &v.body {
             VBody::Unit => out.push_str(&format!("    {attr}{},\n", v.rust)),
             VBody::Newtype(ty) => out.push_str(&format!("    {attr}{}({}),\n", v.rust, ty_name(prog, ty))),
